@@ -79,6 +79,7 @@ def run(tier, seed):
     d = tempfile.mkdtemp(prefix='e2p_c19_')
     try:
         nbooks = 80 if tier == 'quick' else 800
+        shared_parser = m['Parser']()
         for b in range(nbooks):
             ns = rng.randint(1, 4)
             titles = rng.sample(['Main', 'Sheet 2', "it's", 'Data_1', 'Лист', 'A B C'], ns)
@@ -137,6 +138,23 @@ def run(tier, seed):
                                            'sequence': seq, 'impl': r, 'must': sorted(must), 'stream': 'gate-toggle'})
                         if not state and r == 'Safety':
                             chk.violation({'why': 'the safety exception is raised although the check is disabled (after toggling)', 'sequence': seq, 'stream': 'gate-toggle'})
+            # one long-lived parser and ONE path: the file behind it is replaced by this workbook and the path is set again
+            import shutil as _sh
+            same = os.path.join(d, 'same_path.xlsx')
+            _sh.copyfile(path, same)
+            try:
+                shared_parser.set_excel_file_path(same).get_translation()
+                r2 = 'ok'
+            except E2PyclSafetyException:
+                r2 = 'Safety'
+            except Exception as e:  # noqa
+                r2 = 'E' + core.exc_class(e)
+            chk.count('same-path-reused')
+            if must and r2 != 'Safety':
+                chk.violation({'why': 'a parser given the same path again after the file was replaced by a workbook with a Python-like cell does not raise the safety exception',
+                               'impl': r2, 'must': sorted(must), 'stream': 'same-path'})
+            if not must and not (set(cellsrc) - mustnot) and r2 == 'Safety':
+                chk.violation({'why': 'a parser given the same path again reports the cells of the workbook that was there before', 'stream': 'same-path'})
             for enabled in (True, False):
                 p = m['Parser']().set_excel_file_path(path)
                 if not enabled:
